@@ -25,7 +25,8 @@ from strawberryfields.apps import subgraph as SG
 
 PROP = "C19"
 LEVEL = "proof"
-COQ_TARGETS = ["C19/Similarity.vo", "C19/SimilarityProofs.vo", "C19/Clique.vo", "C19/CliqueProofs.vo", "C19/Subgraph.vo"]
+COQ_TARGETS = ["C19/Similarity.vo", "C19/SimilarityProofs.vo", "C19/Clique.vo", "C19/CliqueProofs.vo",
+               "C19/Subgraph.vo", "C19/SubgraphProofs.vo", "C19/Extra.vo"]
 COQ_DIRS = ["C19"]
 PROPERTIES_FILE = "Properties/C19.v"
 ALLOWED_AXIOMS = set()
@@ -680,6 +681,8 @@ def pred_search(d):
         return out + [("search:wrong-sizes", "search over sizes %d..%d has keys %s" % (lo, hi, sorted(dense)))]
     for s, res in recorded:
         out += check_resize_result(g, adj, s, lo, hi, sel, res, tag="resize")
+    if any(not sig.endswith(("-rule-grow", "-rule-shrink")) for sig, _ in out) or len(recorded) != len(subs):
+        return out[:6]
     for k, lst in dense.items():
         cands = {}
         for s, res in recorded:
@@ -755,7 +758,10 @@ PREDS = {
 
 
 def run_pred(ctx, kind, data, emit=True):
-    fails = PREDS[kind](data)
+    try:
+        fails = PREDS[kind](data)
+    except Exception as e:  # noqa: BLE001 — the implementation returned something the predicate cannot even inspect
+        fails = [("%s:malformed-result" % kind, "checking the result failed with %s: %s" % (type(e).__name__, str(e)[:200]))]
     if emit:
         for sig, what in fails:
             ctx.counterexample(sig, what, dict(data, check=kind))
@@ -1072,7 +1078,8 @@ def correspondence(ctx):
         g = gen_graph(rng, max_n=8, labels="small", loops=rng.random() < 0.25)
         sub = gen_sub(rng, g)
         G = mkgraph(g)
-        B.add("is_clique", "is_clique (adj_of %s) %s" % (E(g), L(sorted(set(sub)))), bool(CL.is_clique(G.subgraph(sub))), {"graph": g, "sub": sub})
+        B.add("is_clique", "(is_clique (adj_of %s) %s, is_clique (noloop (adj_of %s)) %s)" % (E(g), L(sorted(set(sub))), E(g), L(sorted(set(sub)))),
+              bool(CL.is_clique(G.subgraph(sub))), {"graph": g, "sub": sub})
     for _ in range(30 * scale):
         g = gen_graph(rng, max_n=8, labels="small")
         cl = find_clique(rng, g)
@@ -1161,6 +1168,8 @@ def correspondence(ctx):
 
     variant_votes = {"buggy": 0, "fixed": 0}
     pending = []
+    loop_votes = {"counted": 0, "ignored": 0}
+    pending_loops = []
     for kind in kinds:
         for (expr, impl, data, _), mv in zip(B.items[kind], model[kind]):
             nontrivial = False
@@ -1187,7 +1196,13 @@ def correspondence(ctx):
             elif kind == "sample":
                 agree = (impl[0] == [list(x) for x in mv[0]] and impl[1] == [list(x) for x in mv[1]] and impl[2] == [list(x) for x in mv[2]])
             elif kind == "is_clique":
-                agree = impl == mv
+                # mv = (edge count including self-loops [source as it stands], self-loops ignored [repaired])
+                if mv[0] != mv[1]:
+                    loop_votes["counted" if impl == mv[0] else "ignored"] += 1
+                    pending_loops.append((data, impl, mv))
+                    agree = True
+                else:
+                    agree = impl == mv[0]
             elif kind == "c01":
                 m0, m1 = list(mv[0]), [tuple(p) for p in mv[1]]
                 agree = impl[0] == m0 and sorted(impl[1]) == sorted(m1)
@@ -1228,6 +1243,16 @@ def correspondence(ctx):
                 fails = run_pred(ctx, pk, data) if pk else []
                 if not fails:
                     ctx.disagreement("corr:" + kind, "model %r vs implementation %r" % (mv, impl), dict(data, check=kind, model=repr(mv)[:600], impl=repr(impl)[:600]))
+
+    # does is_clique count self-loops (source as it stands) or ignore them (repaired)?  one answer for all cases
+    lv = "ignored" if loop_votes["ignored"] > loop_votes["counted"] else "counted"
+    ctx.extra["is_clique_selfloops"] = dict(loop_votes, chosen=lv)
+    for data, impl, mv in pending_loops:
+        if impl != (mv[1] if lv == "ignored" else mv[0]):
+            if not run_pred(ctx, "is_clique", data):
+                ctx.disagreement("corr:is_clique", "model(self-loops %s) %r vs implementation %r" % (lv, mv, impl), dict(data, check="is_clique"))
+        elif lv == "counted":
+            run_pred(ctx, "is_clique", data)
 
     # which variant of the weight-mode indexing does the implementation follow?
     for kind, data, impl, mb, mf in pending:
